@@ -5,7 +5,7 @@ kind=$1; shift
 to=300
 if [[ $1 =~ ^[0-9]+$ ]]; then to=$1; shift; fi
 rm -rf ${DEV:-/tmp/dev}/ov-$kind
-python3 -c "
+VERIF_REPO=${VERIF_REPO:-/tmp/repo-pristine} python3 -c "
 import sys; sys.path.insert(0,'/verif/lib')
 import overlay; overlay.make('$kind','${DEV:-/tmp/dev}/ov-$kind')" || exit 1
 [ -d ${DEV:-/tmp/dev}/target-$kind ] || cp -a /verif/.cache/warm-target ${DEV:-/tmp/dev}/target-$kind
